@@ -60,7 +60,8 @@ Proof.
   - (* LCancel *) injection H as <-. destruct I as [A B C D E]. split; [|reflexivity]. constructor; rsimpl; auto; rfin.
     all: try (intros Hg; destruct (A Hg); rfin).
   - (* LEnvTick *)
-    destruct (r_g s) eqn:Eg; try discriminate; destruct (r_tick_ready s) eqn:Et; try discriminate; injection H as <-;
+    destruct (r_g s) eqn:Eg; try discriminate; destruct (r_tick_ready s) eqn:Et; try discriminate;
+      destruct (r_idx s <? 0) eqn:Ei; try discriminate; cbn [orb] in H; injection H as <-;
       destruct I as [A B C D E]; (split; [|reflexivity]); constructor; rsimpl; auto; rfin;
       try (intros Hx; specialize (C Hx); congruence);
       try (intros Hg; destruct (A Eg); rfin).
@@ -197,7 +198,8 @@ Proof.
   - destruct (r_stop s); try discriminate. destruct (stopped_closed true s); [|discriminate]. injection H as <-.
     destruct I as [A B C]. constructor; rsimpl; ffin.
   - injection H as <-. destruct I as [A B C]. constructor; rsimpl; ffin.
-  - destruct (r_g s); try discriminate; destruct (r_tick_ready s) eqn:Et; try discriminate; injection H as <-;
+  - destruct (r_g s); try discriminate; destruct (r_tick_ready s) eqn:Et; try discriminate;
+      destruct (r_idx s <? 0) eqn:Ei; try discriminate; cbn [orb] in H; injection H as <-;
       destruct I as [A B C]; constructor; rsimpl; cbn [since_sched active_sched idx_consistent];
       rewrite ?zcount_cons; cbn [is_fn_start is_tick]; try lia; auto;
       rewrite B, Z.eqb_refl; exact C.
@@ -222,4 +224,145 @@ Proof.
   cbn [rexec fold_left]. destruct (rstep true s l) as [s'|] eqn:E.
   - apply IH. eapply rstep_fresh; eauto.
   - apply IH. exact I.
+Qed.
+
+(* ---- the harness's trace checker accepts every visible trace of the model *)
+
+Fixpoint chk_after (c0 : chk) (tr : list rev) : option chk :=
+  match tr with
+  | [] => Some c0
+  | e :: r => match chk_after c0 r with
+              | Some c => match visible e with Some v => chk_step c v | None => Some c end
+              | None => None
+              end
+  end.
+
+Lemma chk_run_app c l1 l2 :
+  chk_run c (l1 ++ l2) = match fold_left (fun oc e => match oc with Some c => chk_step c e | None => None end) l1 (Some c) with
+                         | Some c' => chk_run c' l2 | None => false end.
+Proof.
+  revert c. induction l1 as [|e l1 IH]; intros c; [reflexivity|].
+  cbn [app chk_run fold_left]. destruct (chk_step c e) as [c'|].
+  - apply IH.
+  - clear. induction l1 as [|x l1 IH]; [reflexivity|]. cbn [fold_left]. exact IH.
+Qed.
+
+Lemma fold_none l : fold_left (fun oc e => match oc with Some c => chk_step c e | None => None end) l None = None.
+Proof. induction l as [|x l IH]; [reflexivity|]. cbn [fold_left]. exact IH. Qed.
+
+Lemma chk_after_fold c0 tr :
+  chk_after c0 tr =
+  fold_left (fun oc e => match oc with Some c => chk_step c e | None => None end) (visible_trace tr) (Some c0).
+Proof.
+  unfold visible_trace. induction tr as [|e tr IH]; [reflexivity|].
+  cbn [chk_after List.rev]. rewrite flat_map_app, fold_left_app, <- IH.
+  destruct (chk_after c0 tr) as [c|].
+  - cbn [flat_map]. destruct (visible e) as [v|]; reflexivity.
+  - cbn [flat_map]. destruct (visible e) as [v|]; reflexivity.
+Qed.
+
+Lemma chk_after_ok c0 tr c : chk_after c0 tr = Some c -> chk_run c0 (visible_trace tr) = true.
+Proof.
+  intros H. rewrite chk_after_fold in H.
+  rewrite <- (app_nil_r (visible_trace tr)), chk_run_app, H. reflexivity.
+Qed.
+
+(* the checker's state mirrors the model's *)
+Record CRel (s : rstate) (c : chk) : Prop := {
+  cr_started : k_started c = match r_g s with GNone => false | _ => true end;
+  cr_infn : k_infn c = match r_g s with GInFn => true | _ => false end;
+  cr_stopped : k_stopped c = true -> r_g s = GExited;
+  cr_idx : k_idx c = r_idx s;
+  cr_len : k_len c = r_len s;
+  cr_tick : r_tick_ready s = true -> 0 <= r_idx s
+}.
+
+Lemma crel_init len : CRel (rinit len) (chk_init len).
+Proof. constructor; cbn; auto; discriminate. Qed.
+
+Theorem rstep_crel s l s' c :
+  1 <= r_len s -> RInv s -> CRel s c -> chk_after (chk_init (r_len s)) (r_trace s) = Some c ->
+  rstep true s l = Some s' ->
+  exists c', chk_after (chk_init (r_len s)) (r_trace s') = Some c' /\ CRel s' c'.
+Proof.
+  intros Hlen I R Hc H. destruct R as [R1 R2 R3 R4 R5 R6]. destruct I as [A B C D E].
+  destruct l; cbn [rstep] in H.
+  - (* LStart *) destruct (r_g s) eqn:Eg; try discriminate. injection H as <-. rsimpl.
+    cbn [chk_after visible]. rewrite Hc. cbn [chk_step]. rewrite R1. eexists. split; [reflexivity|].
+    constructor; cbn; auto. intros Hx. specialize (R3 Hx). discriminate.
+  - (* LRestart *) destruct (r_restart_buf s); [discriminate|]. injection H as <-. rsimpl.
+    cbn [chk_after visible]. rewrite Hc. cbn [chk_step]. exists c. split; [reflexivity|]. constructor; assumption.
+  - (* LStopCancel *)
+    destruct (r_g s) eqn:Eg; try discriminate; destruct (r_stop s) eqn:Es; try discriminate; injection H as <-; rsimpl;
+      cbn [chk_after visible]; rewrite Hc; cbn [chk_step]; exists c; (split; [reflexivity|]); constructor; rsimpl; auto.
+  - (* LStopReturn *)
+    destruct (r_stop s) eqn:Es; try discriminate. destruct (stopped_closed true s) eqn:Ec; [|discriminate].
+    injection H as <-. rsimpl. unfold stopped_closed in Ec. destruct (r_g s) eqn:Eg; try discriminate.
+    cbn [chk_after visible]. rewrite Hc. cbn [chk_step]. rewrite R2. eexists. split; [reflexivity|].
+    constructor; cbn; auto.
+  - (* LCancel *) injection H as <-. rsimpl.
+    cbn [chk_after visible]. rewrite Hc. cbn [chk_step]. exists c. split; [reflexivity|]. constructor; assumption.
+  - (* LEnvTick *)
+    destruct (r_g s) eqn:Eg; try discriminate; destruct (r_tick_ready s) eqn:Et; try discriminate;
+      destruct (r_idx s <? 0) eqn:Ei; try discriminate; cbn [orb] in H; injection H as <-; rsimpl;
+      cbn [chk_after visible]; rewrite Hc; exists c; (split; [reflexivity|]); constructor; rsimpl; auto; intros; lia.
+  - (* LEnvTimer *)
+    destruct (r_g s) eqn:Eg; try discriminate; destruct (r_timer_armed s); try discriminate; injection H as <-; rsimpl;
+      cbn [chk_after visible]; rewrite Hc; exists c; (split; [reflexivity|]); constructor; rsimpl; auto.
+  - (* LSelRestart *)
+    destruct (r_g s) eqn:Eg; try discriminate. destruct (r_restart_buf s); [|discriminate]. injection H as <-.
+    unfold sched_start. rsimpl. replace (r_len s <=? 0) with false by lia. rsimpl.
+    cbn [chk_after visible app]. rewrite Hc. cbn [chk_step]. unfold chk_at_select. rewrite R1, R2.
+    assert (Hst : k_stopped c = false).
+    { destruct (k_stopped c) eqn:Ek; [|reflexivity]. specialize (R3 eq_refl). congruence. }
+    rewrite Hst. cbn [andb negb]. eexists. split; [reflexivity|].
+    constructor; cbn; auto; try (intros; discriminate).
+    rewrite R5. replace (r_len s <=? 0) with false by lia. reflexivity.
+  - (* LSelTimer *)
+    destruct (r_g s) eqn:Eg; try discriminate. destruct (r_timer_ready s); [|discriminate]. injection H as <-.
+    assert (Hst : k_stopped c = false).
+    { destruct (k_stopped c) eqn:Ek; [|reflexivity]. specialize (R3 eq_refl). congruence. }
+    unfold sched_start. rsimpl. destruct (r_len s <=? r_idx s + 1) eqn:El; rsimpl;
+      cbn [chk_after visible app]; rewrite Hc; cbn [chk_step]; unfold chk_at_select; rewrite R1, R2, Hst; cbn [andb negb];
+      (eexists; split; [reflexivity|]); constructor; cbn; auto; try (intros; discriminate);
+      rewrite R5, R4, El; reflexivity.
+  - (* LSelTick *)
+    destruct (r_g s) eqn:Eg; try discriminate. destruct (r_tick_ready s) eqn:Et; [|discriminate]. injection H as <-. rsimpl.
+    assert (Hst : k_stopped c = false).
+    { destruct (k_stopped c) eqn:Ek; [|reflexivity]. specialize (R3 eq_refl). congruence. }
+    cbn [chk_after visible]. rewrite Hc. cbn [chk_step]. unfold chk_at_select. rewrite R1, R2, Hst, R4, R5.
+    specialize (R6 eq_refl).
+    replace (r_idx s =? r_idx s) with true by lia. replace (0 <=? r_idx s) with true by lia.
+    replace (r_idx s <? r_len s) with true by lia. cbn [andb negb]. eexists. split; [reflexivity|].
+    constructor; cbn; auto; try (intros; discriminate).
+  - (* LFnEnd *)
+    destruct (r_g s) eqn:Eg; try discriminate. injection H as <-. rsimpl.
+    assert (Hst : k_stopped c = false).
+    { destruct (k_stopped c) eqn:Ek; [|reflexivity]. specialize (R3 eq_refl). congruence. }
+    cbn [chk_after visible app]. rewrite Hc. cbn [chk_step]. rewrite R2, Hst. cbn [andb negb].
+    eexists. split; [reflexivity|]. constructor; cbn; auto; try (intros; discriminate).
+  - (* LSelDone *)
+    destruct (r_g s) eqn:Eg; try discriminate. destruct (r_cancelled s); [|discriminate]. injection H as <-. rsimpl.
+    cbn [chk_after app]. rewrite Hc. exists c. split; [reflexivity|]. constructor; rsimpl; auto.
+Qed.
+
+Theorem rexec_crel : forall ls s c,
+  1 <= r_len s -> RInv s -> CRel s c -> chk_after (chk_init (r_len s)) (r_trace s) = Some c ->
+  exists c', chk_after (chk_init (r_len s)) (r_trace (rexec true s ls)) = Some c'.
+Proof.
+  induction ls as [|l ls IH]; intros s c Hl I R Hc; [exists c; exact Hc|].
+  cbn [rexec fold_left]. destruct (rstep true s l) as [s'|] eqn:E.
+  - destruct (rstep_crel s l s' c Hl I R Hc E) as (c' & Hc' & R').
+    destruct (rstep_inv s l s' Hl I E) as [I' L'].
+    rewrite <- L' in Hc'. rewrite <- L'.
+    apply (IH s' c'); try assumption. lia.
+  - apply (IH s c); assumption.
+Qed.
+
+Theorem checker_accepts_model len ls :
+  1 <= len -> runner_trace_ok len (visible_trace (r_trace (rexec true (rinit len) ls))) = true.
+Proof.
+  intros Hl. unfold runner_trace_ok.
+  destruct (rexec_crel ls (rinit len) (chk_init len) Hl (rinit_inv len Hl) (crel_init len) eq_refl) as (c' & Hc').
+  cbn [rinit r_len] in Hc'. eapply chk_after_ok. exact Hc'.
 Qed.
